@@ -190,7 +190,11 @@ class Stmts(Exec):
             key = b.t.n + '.__setattr__.' + attr
             m = self.reg.find_model(key)
             if m is not None: return [(x, o if _isR(o) else NORMAL) for x, o in m(self, st, [b, v], {}, node)]
-        if b.t == NONE or isinstance(b.t, OptT):
+        if isinstance(b.t, OptT):
+            outs, ok = self.guard(st, z3.Not(opt_is_none(b.t, b.z)), 'AttributeError', node, 'attribute assignment on None')
+            if ok is not None: outs.extend(self.setattr_(ok, self.load_val(ok, b.t.base, opt_val(b.t, b.z)), attr, v, node))
+            return outs
+        if b.t == NONE:
             return [self.raise_(st, 'AttributeError', 'attribute assignment on None at %s' % self.loc(node))]
         raise Unsupported('attribute assignment on %s at %s' % (b.t, self.loc(node)))
 
